@@ -130,6 +130,68 @@ func (m *Model) Revert(i int) {
 	m.Live = append([]uint8(nil), m.Chain[i].Img...)
 }
 
+// orphan returns the orphan named name.
+func (m *Model) orphan(name string) (int, *Snap) {
+	for i, o := range m.Orphans {
+		if o.Name == name {
+			return i, o
+		}
+	}
+	return -1, nil
+}
+
+// leaf reports whether no snapshot (chain or orphan) has name as its parent.
+func (m *Model) leaf(name string) bool {
+	for _, s := range m.Chain {
+		if s.Parent == name {
+			return false
+		}
+	}
+	for _, s := range m.Orphans {
+		if s.Parent == name {
+			return false
+		}
+	}
+	return true
+}
+
+// RevertOrphan: the volume is reverted to a snapshot an earlier revert left outside the chain.  The new chain is the
+// parent path of that snapshot; every other snapshot is an orphan.
+func (m *Model) RevertOrphan(name string) {
+	all := map[string]*Snap{}
+	for _, s := range m.Chain {
+		all[s.Name] = s
+	}
+	for _, s := range m.Orphans {
+		all[s.Name] = s
+	}
+	var path []*Snap
+	for cur := all[name]; cur != nil; cur = all[cur.Parent] {
+		path = append([]*Snap{cur}, path...)
+		if cur.Parent == "" {
+			break
+		}
+	}
+	in := map[string]bool{}
+	for _, s := range path {
+		in[s.Name] = true
+	}
+	var orph []*Snap
+	for _, s := range append(append([]*Snap{}, m.Chain...), m.Orphans...) {
+		if !in[s.Name] {
+			orph = append(orph, s)
+		}
+	}
+	m.Chain, m.Orphans = path, orph
+	m.Live = append([]uint8(nil), all[name].Img...)
+}
+
+func (m *Model) RemoveOrphan(name string) {
+	if i, _ := m.orphan(name); i >= 0 {
+		m.Orphans = append(m.Orphans[:i], m.Orphans[i+1:]...)
+	}
+}
+
 func (m *Model) Grow(sectors int) {
 	add := make([]uint8, sectors-len(m.Live))
 	m.Live = append(m.Live, add...)
